@@ -33,6 +33,26 @@ const (
 var c20LoaderName = []string{"grl-text", "json-rule", "json-fact", "grb-stream"}
 
 // c20Load runs one loader; a panic is reported, never propagated.
+var c20Streams [][]byte
+var c20StreamsOnce sync.Once
+
+// c20LoadedStreams: binary streams of two small knowledge bases "KB"/"1" (built once per process).
+func c20LoadedStreams() [][]byte {
+	c20StreamsOnce.Do(func() {
+		for _, text := range []string{`rule OnlyConstants { when 1 + 1 == 2 then Complete(); }`, `rule WithVars { when F.I < 1 then F.I = F.I + 1; }`} {
+			l := ast.NewKnowledgeLibrary()
+			if err := builder.NewRuleBuilder(l).BuildRuleFromResource("KB", "1", pkg.NewBytesResource([]byte(text))); err != nil {
+				continue
+			}
+			var buf bytes.Buffer
+			if err := l.StoreKnowledgeBaseToWriter(&buf, "KB", "1"); err == nil {
+				c20Streams = append(c20Streams, buf.Bytes())
+			}
+		}
+	})
+	return c20Streams
+}
+
 func c20Load(loader int, data []byte) (status string) {
 	defer func() {
 		if r := recover(); r != nil {
@@ -44,6 +64,14 @@ func c20Load(loader int, data []byte) (status string) {
 	case c20GRL:
 		lib := ast.NewKnowledgeLibrary()
 		err = builder.NewRuleBuilder(lib).BuildRuleFromResource("KB", "1", pkg.NewBytesResource(data))
+		// the same text built ONTO knowledge bases that came out of the binary loader (one without any variable:
+		// its working-memory sections are empty; one with variables)
+		for _, stream := range c20LoadedStreams() {
+			l2 := ast.NewKnowledgeLibrary()
+			if _, lerr := l2.LoadKnowledgeBaseFromReader(bytes.NewReader(stream), true); lerr == nil {
+				_ = builder.NewRuleBuilder(l2).BuildRuleFromResource("KB", "1", pkg.NewBytesResource(data))
+			}
+		}
 	case c20JSONRule:
 		var res pkg.Resource
 		res, err = pkg.NewJSONResourceFromResource(pkg.NewBytesResource(data))
@@ -515,7 +543,7 @@ func C20(rep *ev.Reporter, tier string) {
 		rep.Exhaustive = false
 		rep.Coverage["caps_hit"] = fmt.Sprintf("time budget: %d of %d inputs run", ran, total)
 	}
-	rep.Coverage["rule"] = "four loaders (GRL text via the builder, JSON rule via JSONResource+builder, JSON fact via DataContext.AddJSON, binary stream via LoadKnowledgeBaseFromReader), bounded-exhaustive input spaces, no sampling: every byte string of length <= 2 and every length-3 string over a 24-byte structural alphabet; for each valid seed every single-point mutation (every bit flip, every byte set to 00/7f/80/ff, truncation at every offset), every field start of a binary seed (boundaries from a tracing writer) overwritten with 13 boundary values, every node reference (AstID text) of a binary seed replaced by every other id of the stream (dangling, duplicated and cyclic references), splices of seed pairs, boundary numbers in every numeric position, nesting depth 10..2000; for the JSON loaders every value of a seed (at every path) replaced by each of 11 alien values (null, true, numbers, empty and null-holding containers, 1e999) and every token string of length <= 4 over a 13-token JSON alphabet. Each input runs in a child process under RLIMIT_AS (ulimit -v 4 GiB): the worker must survive (no escaped panic, no runtime abort), return a value or an error, allocate at most 8 MiB + 2048 bytes per input byte (runtime.MemStats.TotalAlloc delta) and finish within the hang horizon. Every input is non-trivial (it exercises a loader end to end)."
+	rep.Coverage["rule"] = "four loaders (GRL text via the builder - into a fresh knowledge base and onto two knowledge bases that came out of the binary loader, one of them without any variable -, JSON rule via JSONResource+builder, JSON fact via DataContext.AddJSON, binary stream via LoadKnowledgeBaseFromReader), bounded-exhaustive input spaces, no sampling: every byte string of length <= 2 and every length-3 string over a 24-byte structural alphabet; for each valid seed every single-point mutation (every bit flip, every byte set to 00/7f/80/ff, truncation at every offset), every field start of a binary seed (boundaries from a tracing writer) overwritten with 13 boundary values, every node reference (AstID text) of a binary seed replaced by every other id of the stream (dangling, duplicated and cyclic references), splices of seed pairs, boundary numbers in every numeric position, nesting depth 10..2000; for the JSON loaders every value of a seed (at every path) replaced by each of 11 alien values (null, true, numbers, empty and null-holding containers, 1e999) and every token string of length <= 4 over a 13-token JSON alphabet. Each input runs in a child process under RLIMIT_AS (ulimit -v 4 GiB): the worker must survive (no escaped panic, no runtime abort), return a value or an error, allocate at most 8 MiB + 2048 bytes per input byte (runtime.MemStats.TotalAlloc delta) and finish within the hang horizon. Every input is non-trivial (it exercises a loader end to end)."
 	rep.Assumptions = append(rep.Assumptions, "uniformly random long inputs are sampling and outside this family; hang detection uses a wall clock (30 s for inputs that take microseconds, confirmed twice in isolation)")
 }
 
